@@ -96,7 +96,36 @@ def build_repo_bins():
     return out
 
 
+RS2COQ = os.path.join(BUILD, "rs2coq-target", "debug", "rs2coq")
+
+
+def build_rs2coq():
+    """the Rust -> Gallina translator (syn-based, /verif/rs2coq); independent of /repo"""
+    with Lock("cargo-rs2coq"):
+        env = dict(os.environ, CARGO_NET_OFFLINE="true", CARGO_TARGET_DIR=os.path.join(BUILD, "rs2coq-target"))
+        rc, out = sh(["cargo", "build", "--offline"], cwd=os.path.join(VERIF, "rs2coq"), env=env, timeout=900)
+        if rc != 0:
+            raise CheckFailure("rs2coq build failed:\n" + out[-3000:])
+
+
+def gen_code():
+    """translate the target functions of /repo's CURRENT sources to Gen/Code.v. When a function has
+    left the translated subset the file is replaced by a stub without definitions: the lemmas about the
+    translated code (Proofs/CodeFacts.v) then fail to compile and the properties that import them
+    report the broken tie."""
+    build_rs2coq()
+    dest = os.path.join(COQ, "Gen", "Code.v")
+    rc, out = sh([RS2COQ, REPO, os.path.join(VERIF, "rs2coq", "targets.txt"), dest])
+    if rc != 0:
+        stub = "(* GENERATED: translation FAILED on this run *)\n(* %s *)\n" % out.strip().replace("*)", "* )")[:3000]
+        if not os.path.exists(dest) or open(dest).read() != stub:
+            open(dest, "w").write(stub)
+        log("NOTE rs2coq: " + out.strip()[:600])
+    return out
+
+
 def gen_tables():
+    gen_code()
     with Lock("coq"):
         rc, out = sh([sys.executable, os.path.join(VERIF, "py", "gen_tables.py"), HARNESS,
                       os.path.join(COQ, "Gen", "Tables.v")])
